@@ -134,7 +134,7 @@ private:
     int _min_version = 0;
     std::string _wrapper_name;
     std::set<FunctionRemap*> _remaps;
-    bool _keep_method;
+    bool _keep_method = false;
   };
 
   typedef std::map<std::string, SlottedFunctionDef> SlottedFunctions;
